@@ -88,6 +88,11 @@ def coeff_templates(alg):
     return t
 
 
+def big_powers():
+    """Larger exponents (numeric registration, depth 1 only: the symbolic optimisation of x**9 takes minutes)."""
+    return [(f'pow:{n}', f'(x**({n}))', True) for n in (-6, -5, 4, 5, 6, 7, 9, 10)]
+
+
 def depth1(alg):
     out = []
     for cid, tpl, ing in unary_templates(alg.d):
@@ -285,7 +290,7 @@ def drive(ctx):
     for a in algs:
         alg = Algebra(*ALGS[a])
         d1 = depth1(alg)
-        for ch in chunks(d1, 12):
+        for ch in chunks(d1 + big_powers(), 12):
             tasks.append((a, ch, all_l, ['Fraction', 'float'], ['numeric'], ()))
         for ch in chunks(d1, 16):
             tasks.append((a, ch, all_l[:3], ['Fraction'], ['symbolic'], ()))
